@@ -55,12 +55,36 @@ class FusedModel:
     def is_empty(self, v):
         return v == self.EMPTY or (v and v[0] in ("agg", "refined") and self.kind[0] == "enum" and absint.variant_of(v) == self.kind[4])
 
-    def run(self, inner, answer):
+    def run(self, inner, answer, empty_buf=None):
+        """empty_buf: None = nothing is known about the caller's buffer; True / False = it has no room / some room (every question the code
+        asks about the buffer parameter -- is_empty, len, `any` over the buffers of a vectored read -- is answered accordingly)"""
         st = symex.Sym(self.f)
         st.write_key(self.key, self.FULL if inner else self.EMPTY)
+        import drain_rules as DR
+        def about_buf(s2, a):
+            return DR.from_param(absint.deep(s2, a), 2)
         def on_call(bb, t, args, s2):
             if t.get("callee") in READS:
                 return answer
+            if empty_buf is not None and args:
+                nm = call_name(t)
+                if re.search(r"slice::<impl \[T\]>::(is_empty|len)$", nm) and about_buf(s2, args[0]):
+                    if nm.endswith("is_empty"):
+                        return ("const", empty_buf, "true" if empty_buf else "false", None)
+                    return ("const", 0 if empty_buf else 16, "0_usize" if empty_buf else "16_usize", None)
+                if re.search(r"Iterator>?::(any|all)(::<|$)", nm) and about_buf(s2, args[0]):
+                    # `bufs.iter().any(|b| !b.is_empty())` / `.all(|b| b.is_empty())`: "some buffer has room" / "no buffer has room"
+                    clo = absint.deep(s2, args[1]) if len(args) > 1 else None
+                    g = self.facts.fns.get(clo[1]) if clo and clo[0] == "closure" else None
+                    neg = False
+                    if g is not None:
+                        o = g.origin_place({"l": 0, "p": []})
+                        while o[0] == "unop" and o[1] == "Not":
+                            o, neg = o[2], not neg
+                        if o[0] == "call" and re.search(r"::is_empty$", o[1]):
+                            per_buf = empty_buf != neg        # what the closure answers for each buffer
+                            r = per_buf                        # all buffers alike: any == all == that answer
+                            return ("const", r, "true" if r else "false", None)
             return None
         ps = [p for p in absint.explore(self.f, 0, st, on_call=on_call, max_paths=2000) if p.end[0] not in DEAD]
         out = []
@@ -93,7 +117,7 @@ def fused_rules(ctx, rule_stub="C03.4", rule_release="C03.4", rule_retry=None):
     if rule_stub:
         ctx.ob(rule_stub, "%s|empty-stays-eof" % M.f0.id, "once emptied, the fused reader returns Ok(0) forever, without touching any reader", ok, where,
                None if ok else str([(r["end"], symex.sym_str(r["ret"] or ("unknown",))[:40], r["reads"]) for r in rows][:3]))
-    z = M.run(True, ok_(0))
+    z = M.run(True, ok_(0), empty_buf=False)
     okz = bool(z) and all(r["end"] == "return" and is_ok(r["ret"], 0) and r["reads"] == 1 and M.is_empty(r["slot"]) for r in z)
     n = M.run(True, ok_(7))
     okn = bool(n) and all(r["end"] == "return" and is_ok(r["ret"], 7) and r["reads"] == 1 and M.is_full(r["slot"]) for r in n)
@@ -106,5 +130,24 @@ def fused_rules(ctx, rule_stub="C03.4", rule_release="C03.4", rule_retry=None):
                okz and okn and oke, where, None if okz and okn and oke else "eof:%s bytes:%s error:%s" % (show(z), show(n), show(e)))
     if rule_retry:
         ctx.ob(rule_retry, "%s|no-retry" % M.f0.id, "a failing inner read is reported to the caller, not retried", oke, where, None if oke else show(e))
+    # a read into a buffer without room returns 0 anywhere in the body: that 0 says nothing about the end of the body and must not make the
+    # fused reader let go of (and thereby discard the rest of) the body
+    okb = True
+    detail_b = None
+    if rule_release:
+        for name in ("read", "read_vectored"):
+            try:
+                Mv = fmodel(facts, None, name)
+            except CheckerError:
+                continue
+            if Mv.f0.rec.get("impl_trait") != T_READ or not Mv.f0.rec.get("local"):
+                continue
+            zb = Mv.run(True, ok_(0), empty_buf=True)
+            ctx.paths += len(zb)
+            good = bool(zb) and all(r["end"] == "return" and is_ok(r["ret"], 0) and Mv.is_full(r["slot"]) for r in zb)
+            ctx.ob(rule_release, "%s|empty-buffer-keeps-inner" % Mv.f0.id,
+                   "a read into a buffer without room (which returns 0 anywhere in the body) does not make the fused reader let go of the body: the rest of it would be discarded unread",
+                   good, "%s:%d" % (Mv.f0.file, Mv.f0.line), None if good else show(zb))
+            okb = okb and good
     ctx.paths += len(rows) + len(z) + len(n) + len(e)
-    return {"stub": ok, "eof": okz, "bytes": okn, "err": oke}
+    return {"stub": ok, "eof": okz, "bytes": okn, "err": oke, "empty_buf": okb}
